@@ -39,6 +39,7 @@ def _prof(name: str) -> Prof:
         PROFS.update(
             {
                 'ax': Prof(symbol=2, svar=False, mu=False, app=False, exists=True, metavars=1),
+                'ax_collide': Prof(symbol=1, sym_names=('x0',), svar=False, mu=False, app=False, exists=False, metavars=1, mv_cfgs=((0, 0, 0, 0), (1, 0, 0, 0))),
                 'ax_big': Prof(symbol=1, svar=True, mu=True, app=False, exists=True, metavars=0, id_hi=1000),
                 'ax_nt': Prof(symbol=2, svar=False, mu=False, app=False, exists=False, metavars=1, notations=(P.bot, P.neg)),
             }
@@ -150,11 +151,13 @@ def decode(it: Any) -> tuple:
 def h_module(ctx: Any, shape: int, nax: int, nclaims: int, prof: str, size: int = 3, twin: bool = False) -> None:
     main, order, claims = build_modules(ctx, shape, nax, prof, nclaims, size)
     results = {}
+    errs: dict = {}
     for opt in (False, True):
         try:
             it = serialize(main, opt)
-        except ValueError:
+        except Exception as e:
             results[opt] = None
+            errs[opt] = e
             continue
         results[opt] = it
     ctx.count('reached')
@@ -162,7 +165,7 @@ def h_module(ctx: Any, shape: int, nax: int, nclaims: int, prof: str, size: int 
     if twin:
         ctx.violation('TWIN')
     # refused or encoded: the same for both settings, and refusal only for unencodable ids
-    ctx.check((results[False] is None) == (results[True] is None), 'C03.optimize-changes-refusal', lambda: f'{order!r}')
+    ctx.check((results[False] is None) == (results[True] is None), 'C03.optimize-changes-refusal', lambda: f'{order!r}: {errs!r}')
     if results[False] is None:
         ctx.count('refused')
         big = False
@@ -171,7 +174,7 @@ def h_module(ctx: Any, shape: int, nax: int, nclaims: int, prof: str, size: int 
             for i in es + ss:
                 if i > 255:
                     big = True
-        ctx.check(big, 'C03.refuses-encodable-module', lambda: f'{order!r}')
+        ctx.check(big, 'C03.refuses-encodable-module', lambda: f'{order!r}: {errs!r}')
         return
     want_ax = _dedup([O.expand(a) for a in order])
     want_cl = [O.expand(c) for c in claims]
@@ -256,6 +259,7 @@ def levels(tier: str) -> list[dict]:
     plan = [(0, 1, 3), (0, 2, 2), (1, 1, 3), (1, 2, 2), (2, 1, 2)] if q else [(0, 1, 3), (0, 2, 3), (0, 3, 2), (1, 1, 3), (1, 2, 3), (2, 1, 3), (2, 2, 2)]
     for shape, nax, size in plan:
         L.append(dict(label=f'module/imports={shape},axioms={nax},size<={size},claims<=2', module=M, fn='h_module', kwargs=dict(shape=shape, nax=nax, nclaims=2, prof='ax', size=size), budget_s=bud, required=nax <= 1, twin=(shape == 1 and nax == 1)))
+    L.append(dict(label='module/colliding-renderings/axioms=2,size<=3', module=M, fn='h_module', kwargs=dict(shape=0, nax=2, nclaims=1, prof='ax_collide', size=3), budget_s=bud, required=True, twin=False))
     L.append(dict(label='module/ids-up-to-1000/axioms=1,size<=3', module=M, fn='h_module', kwargs=dict(shape=0, nax=1, nclaims=1, prof='ax_big', size=3), budget_s=bud, required=True, twin=False))
     L.append(dict(label='module/notation/imports=1,axioms=1', module=M, fn='h_module', kwargs=dict(shape=1, nax=1, nclaims=1, prof='ax_nt'), budget_s=bud, required=True, twin=False))
     return L
